@@ -154,3 +154,33 @@ def replay_history(props, ops, term=None, extra_oracle=None):
         f = f + term.two_phase(go)
     d, _ = corr.run_batch([(o2, w2, r2)])
     return f, d[0]
+
+
+def explore_list(rep, props, hists, term=None, extra_oracle=None, batch=500, tag='small_scope'):
+    """run a FIXED list of (already small) histories: correspondence + oracles, no shrinking"""
+    term = term or Term()
+    found_oracle, found_div = [], []
+    seen = set()
+    for b in range(0, len(hists), batch):
+        cases = [impl.run_history(h) for h in hists[b:b + batch]]
+        divs, answers = corr.run_batch(cases)
+        allf = []
+        def go():
+            del allf[:]
+            for (ops, _, recs) in cases:
+                f = []
+                oracles.step_oracles(term, props, ops, recs, f)
+                if extra_oracle:
+                    extra_oracle(term, ops, recs, f)
+                allf.append(f)
+        term.two_phase(go)
+        for (ops, wires, recs), d, f in zip(cases, divs, allf):
+            rep.count({'history': pretty(ops)}, True)
+            rep.bump(tag)
+            for fl in f:
+                if fl['oracle'] not in seen:
+                    seen.add(fl['oracle'])
+                    found_oracle.append({'oracle': fl['oracle'], 'history': pretty(ops), 'failure': fl})
+            if d and len(found_div) < 8:
+                found_div.append({'history': pretty(ops), 'divergence': d})
+    return found_oracle, found_div
